@@ -69,7 +69,10 @@ def gen_call(r, n):
     if c < 0.85:
         fn = r.choice(["min", "max", "abs", "to_number", "in_range"])
         a, b = r.randint(-5, 9), r.randint(-5, 9)
-        if fn == "abs": return "math.abs(%d)" % a, {"fn": "abs", "a": a, "type": "i", "range": False}
+        if fn == "abs":
+            if r.random() < 0.5:       # magnitudes around and above 2^31 / 2^32: the argument is a 64-bit integer
+                a = r.choice([1, -1]) * r.choice([2147483647, 2147483648, 2147483649, 4294967295, 4294967296, 4294967297, 1099511627776, 9223372036854775806])
+            return "math.abs(%d)" % a, {"fn": "abs", "a": a, "type": "i", "range": False}
         if fn == "to_number": return "math.to_number(%s)" % ("true" if a > 0 else "false"), {"fn": "to_number", "a": a > 0, "type": "i", "range": False}
         if fn == "in_range": return "math.in_range(%d.0, %d.0, %d.0)" % (a, min(a, b), max(a, b) + 1), {"fn": "in_range", "type": "i", "range": False}
         return "math.%s(%d, %d)" % (fn, abs(a), abs(b)), {"fn": fn, "a": abs(a), "b": abs(b), "type": "i", "range": False}
@@ -129,7 +132,20 @@ def reference(d, data, seg):
         best = max(range(256), key=lambda c: (bs.count(bytes([c])), -c))
         return best
     if fn == "deviation": return (sum(abs(x - d["mean"]) for x in bs) / len(bs)) if bs else float("nan")
-    if fn in ("serial_correlation", "monte_carlo_pi"): return "skip"
+    if fn == "monte_carlo_pi":
+        # ent's Monte Carlo estimate: consecutive groups of 6 bytes are points (x, y) with 24-bit coordinates; the value is the
+        # relative error of 4 * inside / points against pi; undefined without a complete group
+        if d.get("multi_block"): return "skip"       # the library restarts the grouping at every block (follows the code; not judged)
+        n = len(bs) // 6
+        if n == 0: return None
+        inc = (256.0 ** 3 - 1) ** 2
+        inside = 0
+        for k in range(n):
+            g = bs[6 * k:6 * k + 6]
+            mx = (g[0] * 256.0 + g[1]) * 256.0 + g[2]; my = (g[3] * 256.0 + g[4]) * 256.0 + g[5]
+            if mx * mx + my * my <= inc: inside += 1
+        return abs((4.0 * inside / n - math.pi) / math.pi)
+    if fn == "serial_correlation": return "skip"
     if fn == "min": return min(d["a"], d["b"])
     if fn == "max": return max(d["a"], d["b"])
     if fn == "abs": return abs(d["a"])
@@ -160,11 +176,16 @@ def c14(res, tier, seed):
     plans = []
     for si in range(nscans):
         n = r.choice([0, 1, 2, 4, 7, 12, 12, 33])
-        grid = si < 11 * (1 if tier == "quick" else 4)
+        grid = si < 12 * (1 if tier == "quick" else 4)
         if grid: n = r.choice([6, 12])
+        if grid and si % 12 == 11: n = 30
         data = bytes(r.choice([0x61, 0x62, 0x00, 0xff, 0x41, 0x20, 0x7a, r.randrange(256)]) for _ in range(n))
+        if grid and si % 12 == 11:
+            # 6-byte groups = points with 24-bit coordinates: some outside the quarter circle (a coordinate starting with a byte >= 0xB5), some inside
+            data = b"".join(bytes([r.choice([0xf0, 0xff, 0xc0]), r.randrange(256), r.randrange(256), r.choice([0xe0, 0xff, 0x10]), r.randrange(256), r.randrange(256)]) if r.random() < 0.5
+                            else bytes([r.randrange(0x60), r.randrange(256), r.randrange(256), r.randrange(0x60), r.randrange(256), r.randrange(256)]) for _ in range(5))
         layout = r.choice(["mem", "mem", "mem", "blocks2", "blocks3", "gap"])
-        if n < 3 or (grid and si % 2 == 0): layout = "mem"
+        if n < 3 or (grid and (si % 2 == 0 or si % 12 == 11)): layout = "mem"
         if layout == "mem":
             blocks = [{"base": 0, "size": n, "doff": 0}]; spec = None
         else:
@@ -195,7 +216,7 @@ def c14(res, tier, seed):
                     calls.append(("hash.%s(%d, %d)" % (fn2, o2, l2), {"fn": fn2, "o": o2, "l": l2, "type": "s" if fn2 in ("md5", "sha1", "sha256") else "i", "range": True}))
                     continue
             calls.append(gen_call(r, n))
-        GRID_FNS = ["mean", "entropy", "deviation", "percentage", "count", "mode", "md5", "crc32", "checksum32", "sha256", "sha1"]
+        GRID_FNS = ["mean", "entropy", "deviation", "percentage", "count", "mode", "md5", "crc32", "checksum32", "sha256", "sha1", "monte_carlo_pi"]
         if grid:
             # systematic part: one function x a grid of ranges - whole buffer, clipped at the end, starting at / past the end, empty
             fn = GRID_FNS[si % len(GRID_FNS)]
@@ -206,11 +227,11 @@ def c14(res, tier, seed):
                     calls.append(("math.%s(%d, %d, %d)" % (fn, b, o, l), {"fn": fn, "byte": b, "o": o, "l": l, "type": "i" if fn == "count" else "f", "range": True}))
                 elif fn == "deviation":
                     calls.append(("math.deviation(%d, %d, 64.0)" % (o, l), {"fn": "deviation", "mean": 64.0, "o": o, "l": l, "type": "f", "range": True}))
-                elif fn in ("mean", "entropy", "mode"):
+                elif fn in ("mean", "entropy", "mode", "monte_carlo_pi"):
                     calls.append(("math.%s(%d, %d)" % (fn, o, l), {"fn": fn, "o": o, "l": l, "type": "i" if fn == "mode" else "f", "range": True}))
                 else:
                     calls.append(("hash.%s(%d, %d)" % (fn, o, l), {"fn": fn, "o": o, "l": l, "type": "s" if fn in ("md5", "sha1", "sha256") else "i", "range": True}))
-        bgrid = (not grid) and si < (11 + 12) * (1 if tier == "quick" else 4)
+        bgrid = (not grid) and si < (12 + 12) * (1 if tier == "quick" else 4)
         if bgrid:
             # systematic part for several blocks: one function x every range that starts at / next to a block start and ends at / next
             # to a block end, over blocks that touch, blocks with a gap between them, and both (the range walk of hash.c / math.c)
@@ -273,7 +294,7 @@ def c14(res, tier, seed):
                 if d["range"]:
                     records.append({"kind": "range", "blocks": p["blocks"], "o": d["o"], "l": d["l"], "claim": seg})
                     owners.append((txt, p["data"].hex(), p["layout"], obs))
-                ref = reference(d, p["data"], seg)
+                ref = reference(dict(d, multi_block=len(p["blocks"]) > 1), p["data"], seg)
                 res.count(1, (txt, p["data"], json.dumps(p["blocks"])))
                 if ref == "skip":
                     continue
